@@ -524,6 +524,8 @@ class OpSum(list):
             return OpSum(super().__mul__(other))
 
     def __rmul__(self, other):
+        if isinstance(other, np.ndarray) and other.ndim == 0:
+            other = other.item()
         if isinstance(other, (int, float, complex, np.generic)):
             return self * other
         return OpSum(super().__rmul__(other))
